@@ -142,3 +142,44 @@ pub fn syntax_devs(literals: bool, ints: bool, attrs: bool, docs: bool) -> Vec<D
     }
     d
 }
+
+/// Generic parameter lists beyond a single parameter: several parameters of different kinds, bounds given only in a
+/// `where` clause, a lifetime next to type and const parameters. Every parameter is used by variant 0 (and 1).
+/// `lifetime_ok`: the derive under test admits lifetime parameters.
+pub fn rich_generic_devs(lifetime_ok: bool) -> Vec<Dev> {
+    use crate::spec::{FieldTy, Generic, Kind, NamedField};
+    let phantom = || FieldTy::Raw("::core::marker::PhantomData<[u8; N]>".into(), "PhantomData<[u8; 3]>".into());
+    let free0 = |s: &EnumSpec| !s.variants.is_empty() && !s.variants[0].default && !s.variants[0].transparent && !s.variants[0].default_with;
+    let mut d = Vec::new();
+    if lifetime_ok {
+        d.push(dev("generic<'a, T: Default, const N: usize> where T: Clone", &["gen", "kind0"], move |s| {
+            if !free0(s) {
+                return false;
+            }
+            s.generics = vec![Generic::Lifetime { name: "a".into() }, Generic::Type { name: "T".into(), bounds: "Default".into() }, Generic::Const { name: "N".into() }];
+            s.where_clause = Some("T: Clone".into());
+            s.variants[0].kind = Kind::Tuple(vec![FieldTy::LStr, FieldTy::T, phantom()]);
+            true
+        }));
+    }
+    d.push(dev("generic<T: Default, U: Default> where U: Copy", &["gen", "kind0", "kind1"], move |s| {
+        if !free0(s) || s.variants.len() < 2 || s.variants[1].default || s.variants[1].transparent || s.variants[1].default_with {
+            return false;
+        }
+        s.generics = vec![Generic::Type { name: "T".into(), bounds: "Default".into() }, Generic::Type { name: "U".into(), bounds: "Default".into() }];
+        s.where_clause = Some("U: Copy".into());
+        s.variants[0].kind = Kind::Tuple(vec![FieldTy::T]);
+        s.variants[1].kind = Kind::Named(vec![NamedField { name: "u".into(), ty: FieldTy::U, default_with: false }]);
+        true
+    }));
+    d.push(dev("generic<T, const N: usize> where T: Default + Copy (bounds only in the where clause)", &["gen", "kind0"], move |s| {
+        if !free0(s) {
+            return false;
+        }
+        s.generics = vec![Generic::Type { name: "T".into(), bounds: "".into() }, Generic::Const { name: "N".into() }];
+        s.where_clause = Some("T: Default + Copy".into());
+        s.variants[0].kind = Kind::Tuple(vec![FieldTy::T, phantom()]);
+        true
+    }));
+    d
+}
